@@ -651,3 +651,16 @@ func vBreakLineOrphansWidows() (int, []string) {
 //@   return 4 ensures[no-child-breaks] result == pr.False
 //@   return 5 ensures[no-wrapping] result == pr.False
 //@   loop 1 step[scan-continues-past-a-child-that-does-not-break] callresult(canBreakInside, 1) != pr.True
+
+// CSS 2.1 §10.3.4 with §10.4: a block-level replaced box with auto width and height takes its intrinsic size,
+// clamped by min/max; the margins of the FINAL width resolution are computed from the margins the box had before
+// any width was resolved (auto margins are still auto then: a clamped image with `margin: 0 auto` stays centred),
+// after the clamping.
+//@ func blockReplacedBoxLayout
+//@   props C10
+//@   modifies anything
+//@   unclaimed call-*-pre* "box accessors on a box under layout"
+//@   assert after computedMarginsL#1: calls(blockReplacedWidth_) == 0 && calls(minMaxAutoReplaced) == 0
+//@   assert after computedMarginsR#1: calls(blockReplacedWidth_) == 0 && calls(minMaxAutoReplaced) == 0
+//@   call minMaxAutoReplaced#1 assert[after-the-intrinsic-size] calls(blockReplacedWidth_) == 1 && calls(replacedBoxHeight_) == 1 && arg0 == box
+//@   call blockLevelWidth_#1 assert[final-resolution-from-the-computed-margins] box.MarginLeft == computedMarginsL && box.MarginRight == computedMarginsR && calls(minMaxAutoReplaced) == 1 && arg0 == box_ && arg2 == containingBlock
